@@ -31,6 +31,9 @@ inductive Ctor where
   | newOpts (dflt cleanup : Option Int) (cb : Option Nat) (mincap : Option Int)
   /-- `NewDefault(defaultExpiration, cleanupInterval[, evictedCallback])` -/
   | newDefault (dflt cleanup : Int) (cb : Option Nat)
+  /-- `New(WithDefaultExpiration(base), …, WithDefaultExpiration(dflt))`: an option slice that sets the default twice (a
+  base configuration plus an override); the later option wins -/
+  | newOptsOver (base dflt : Int) (cleanup : Option Int) (cb : Option Nat) (mincap : Option Int)
 
 def construct (c : Ctor) (now : Int) : St K V × Bool :=
   match c with
@@ -44,6 +47,14 @@ def construct (c : Ctor) (now : Int) : St K V × Bool :=
     newXsyncMap (some (Gen.New_cfg opts)) cb now
   | .newDefault dflt cleanup cb =>
     newXsyncMap (some (Gen.NewDefault_cfg dflt cleanup cb.isSome)) cb now
+  | .newOptsOver base dflt cleanup cb mincap =>
+    let opts : List (Gen.Config → Gen.Config) :=
+      [Gen.WithDefaultExpiration base] ++
+      (match cleanup with | some i => [Gen.WithCleanupInterval i] | none => []) ++
+      (match cb with | some _ => [Gen.WithEvictedCallback true] | none => []) ++
+      (match mincap with | some m => [Gen.WithMinCapacity m] | none => []) ++
+      [Gen.WithDefaultExpiration dflt]
+    newXsyncMap (some (Gen.New_cfg opts)) cb now
 
 /-- `i.expired()` -/
 def expired (s : St K V) (i : Item V) : Bool := Gen.item_expired i.e s.now
